@@ -72,6 +72,16 @@ def r1_routes(ctx):
         if h in PUBLIC:
             r.ok(key, cfg.loc(b, i), "public route: " + PUBLIC[h], work=1)
             continue
+        if h == "<closure in router>":
+            # the only closure route is the prometheus exporter: it may call
+            # nothing but the metrics handle's render()
+            cl = [bd for bd in fn.bodies if bd.kind == "Closure"]
+            names = sorted({cname(t) for bd in cl for _j, t in bd.calls() if not idioms.is_noise(t)})
+            if names and set(names) <= {"render", "clone", "pin", "new"}:
+                r.ok(key, cfg.loc(b, i), "public route: prometheus metrics exporter (closure calls only %s)" % names, work=len(cl))
+            else:
+                r.violation(key, cfg.loc(b, i), "a closure is registered as a route handler and does more than render metrics (calls %s)" % names, work=len(cl))
+            continue
         hf = ws.fns.get(h)
         if hf is None:
             r.violation(key, cfg.loc(b, i), "route handler %s cannot be resolved to a workspace function and is not in the public table" % h, work=1)
@@ -85,7 +95,7 @@ def r1_routes(ctx):
                         "route %s %s is neither in the public table nor calls authenticate_endpoint: it is reachable without a device signature" % (method.upper(), h),
                         work=1)
     n_auth = len(authed)
-    if n_auth < 16:
+    if n_auth < 16 and ctx.config == "workspace":
         r.violation("authenticated-count", cfg.loc(fn.main), "only %d authenticated method-routes found (16 on the pinned tree)" % n_auth, work=1)
     return authed
 
@@ -399,6 +409,10 @@ def r6_trusted_set_refreshed(ctx):
             r.ok(k, cfg.loc(body, sets[0]), "set_devices on every accepted path", work=len(body.blocks))
     if n == 0:
         r.anchor_missing("server storage merge_device / force_merge_device bodies")
+
+
+# extra build configurations analysed in the thorough tier
+THOROUGH_CONFIGS = ['server-all', 'server-min']
 
 
 def run(ctx):
